@@ -15,7 +15,7 @@ SPEC_PRIMS = {
     "is_none", "is_bool", "is_int", "is_float", "is_num", "is_str", "is_arr", "is_obj", "is_nothing", "is_nodelist",
     "is_tuple", "is_pattern", "is_container", "nvals", "prog_len", "prog_at", "is_gen", "is_slice", "is_enum", "is_exc", "is_userfunc", "Node", "NodeList", "Ctx", "nkeys", "key_at", "val_at", "has_key",
     "get", "num", "seq", "pending", "implies", "iff", "old", "raised", "exc_is", "same", "slice_of", "int_of", "str_of",
-    "codepoint", "char", "ucall", "regex_fullmatch", "regex_search", "iregexp_ok", "str_count", "str_rfind", "int_str", "exc_message", "utf8",
+    "codepoint", "char", "ucall", "regex_fullmatch", "regex_search", "iregexp_ok", "str_count", "str_rfind", "int_str", "int_text_ok", "exc_message", "utf8",
     "canonical", "is_hexdigit_code", "finditer_outcome", "compile_outcome", "is_pynum", "is_pylist", "is_pyobject", "obj_eq", "slice_parts", "py_equal", "float_of", "truthy", "mk_list", "mk_tuple", "enum_ord", "func_id",
 }
 
@@ -658,6 +658,8 @@ class CallMixin(ExprMixin):
         if name == "str_rfind":
             f = self.uf("str_rfind", z3.StringSort(), z3.StringSort(), z3.IntSort(), z3.IntSort(), z3.IntSort())
             return self.int_(f(self.str_term(a[0]), self.str_term(a[1]), self.int_term(a[2]), self.int_term(a[3])))
+        if name == "int_text_ok":
+            return B(self.uf("py_int_ok", self.V, z3.BoolSort())(U.con("VStr", self.str_term(a[0]))))
         if name == "utf8":
             return T("list", self.utf8_bytes(self.str_term(a[0])))
         if name == "exc_message":
@@ -748,7 +750,18 @@ class CallMixin(ExprMixin):
             if isinstance(a0, T) and a0.kind == "int":
                 return self.ok(a0, st)
             r = self.uf("py_int_of", self.V, z3.IntSort())(self.box(a0))
-            return self.ok(self.int_(r), st) + self.raise_(st, "ValueError") + self.raise_(st, "OverflowError")
+            okc = self.uf("py_int_ok", self.V, z3.BoolSort())(self.box(a0))
+
+            def text(a):
+                # int(text): ValueError exactly when the text is not an integer literal (same text, same outcome)
+                return self.split(a, okc, lambda a1: self.ok(self.int_(r), a1), lambda b1: self.raise_(b1, "ValueError"))
+
+            def other(b):
+                return self.ok(self.int_(r), b) + self.raise_(b, "ValueError") + self.raise_(b, "OverflowError")
+
+            if isinstance(a0, T) and a0.kind == "str":
+                return text(st)
+            return self.split(st, self.is_kind(a0, ["VStr"]), text, other)
         if cname == "frozenset" and len(args) == 1 and not kwargs:
             # frozenset([c1, c2, ...]) of an explicit list: used for membership tests only -- kept as the tuple of its items
             a0 = args[0]
@@ -772,6 +785,28 @@ class CallMixin(ExprMixin):
         icls, init = src.find_method(cname, "__init__")
         if init is None:
             return self.ok(T("V", self.rec_term(rec)), st)
+        ikey = f"{src.classes[icls].module}:{icls}.__init__"
+        if ikey in REGISTRY and REGISTRY[ikey].trusted and icls == cname:
+            # a constructor outside the subset with an assumed contract: a new unknown instance satisfying its clauses
+            c0 = REGISTRY[ikey]
+            self.used_contracts.add(ikey)
+            obj = z3.Const(fresh_name("new_" + cname), self.V)
+            env0 = self.bind_params(init, T("V", obj), args, kwargs, st)
+            cs = State(env0, st.pc, None, "spec", None, dict(st.ghost))
+            save_mod = self.cur_module
+            self.cur_module = src.classes[icls].module
+            try:
+                for idx, cl in enumerate(c0.requires):
+                    goal = self.truthy(self.ev1(c0.parsed(cl), State({k: v for k, v in env0.items() if k != "self"}, st.pc, None, "spec", None, dict(st.ghost))))
+                    self.oblige(st, f"pre@call:{cname}.__init__#{idx}", goal, cl)
+                facts = [self.isinstance_term(T("V", obj), Cls(cname))] + [self.truthy(self.ev1(c0.parsed(cl), cs)) for cl in c0.ensures]
+            finally:
+                self.cur_module = save_mod
+            out = self.ok(T("V", obj), self.assume(st, facts))
+            for a in (c0.raises or []):
+                e = z3.Const(fresh_name("exc"), self.V)
+                out.append((RAISE, e, st.fork(U.isinstance_exc(e, a))))
+            return out
         res = self.inline_init(icls, init, rec, args, kwargs, st)
         return self.bind(res, lambda _, s: self.ok(T("V", self.rec_term(rec_final(s))), s))
 
